@@ -59,12 +59,13 @@ class SympyFaults:
                 this.key = tuple(str(k) for k in gself.equalities.keys())
             except Exception:  # pylint: disable=broad-exception-caught
                 this.key = None
-            this.keys_seen.append(
-                [this.iter_of(), list(this.key) if this.key is not None else None, this.key_faulted(this.key)]
-            )
+            entry = [this.iter_of(), list(this.key) if this.key is not None else None, this.key_faulted(this.key), False]
+            this.keys_seen.append(entry)
+            before = this.calls.get("groebner", 0)
             try:
                 return o_se(gself, *a, **kw)
             finally:
+                entry[3] = this.calls.get("groebner", 0) > before
                 this.key = None
 
         def groebner(*a, **kw):
